@@ -48,7 +48,8 @@ THEOREMS = ["JanetModel.Props.C16." + t for t in (
     "sendto_one_datagram_per_call", "read_all_returns_everything_before_eof",
     # session 4: operations composed with the slot registry (one stream, many fibers), system-level liveness under fairness
     "shared_stream_isolation", "shared_stream_invariant", "concurrent_writer_refused", "shared_stream_write_delivers_in_order",
-    "shared_stream_write_terminates_under_fairness")]
+    "shared_stream_write_terminates_under_fairness", "shared_stream_read_in_order", "shared_stream_read_terminates_under_fairness",
+    "shared_stream_close_wakes_all")]
 NET_CURRENT = ["JanetModel.Stream.NetCurrent." + t for t in (
     "current_source_event_codes", "current_source_connect_quiet_on_gc", "current_source_connect_checks_on_readiness",
     "connect_unaffected_by_gc_current", "current_source_accept_groups", "current_source_accept_loop_level_triggered")]
@@ -171,6 +172,71 @@ def prepare_corr(tag, trace, eops):
     return out
 
 
+def registry_lines(tag, trace, eops):
+    """per stream end: the order of operation starts / ends / closes as the trace shows it -> [(model line, tag, sid, [(fiber, impl refused?)])]
+    for the `S` command of jm_c16 (listener-slot registry, World.runCurrent).  The `end` marker is written when the fiber runs
+    again, i.e. possibly later than janet_async_end: the trace OVER-approximates who is still registered, so only
+    `the model has the direction free and the implementation refused` is a difference."""
+    why = {(o["fiber"], o["idx"]): (o.get("status") or "") for o in eops}
+    per, cur = {}, {}
+    for line in trace.splitlines():
+        if not line.startswith("N "):
+            continue
+        t = line.split()
+        if len(t) < 3 or "=" not in t[1]:
+            continue
+        fib = t[1].split("=")[1]
+        if t[2] == "op" and len(t) >= 9 and t[5] in ("r", "w"):
+            sid = t[3].split("=")[1]
+            cur[fib] = (sid, t[7], t[8])
+            per.setdefault(sid, []).append(("s%s:%s" % (fib, t[5]), fib, t[7], t[8]))
+        elif t[2] == "end" and fib in cur:
+            sid, name, idx = cur.pop(fib)
+            per.setdefault(sid, []).append(("e%s" % fib, fib, name, idx))
+        elif t[2] == "close" and len(t) > 3 and t[3].startswith("sid="):
+            per.setdefault(t[3].split("=")[1], []).append(("c", fib, None, None))
+    out = []
+    for sid, acts in per.items():
+        if sid == "-1" or len(acts) > 3000:
+            continue
+        starts = [(a[1], "cannot listen for duplicate event" in why.get((a[2], a[3]), "")) for a in acts if a[0].startswith("s")]
+        out.append(("S " + " ".join(a[0] for a in acts), tag, sid, starts))
+    return out
+
+
+def registry_correspond(ctx, exe, reg):
+    """-> (streams compared, diffs, token histogram)"""
+    if not exe or not reg:
+        return 0, [], {}
+    outs = ctx.model([r[0] for r in reg], exe=exe)
+    diffs, hist = [], {}
+    for (line, tag, sid, starts), mo in zip(reg, outs):
+        toks = mo.split()
+        acts = line.split()[1:]
+        if len(toks) != len(acts):
+            diffs.append({"scenario": tag, "stream": sid, "why": "model driver output does not match the acts: %r" % mo[:200]})
+            continue
+        k = 0
+        for a, m in zip(acts, toks):
+            hist[m] = hist.get(m, 0) + 1
+            if a.startswith("s"):
+                fib, refused = starts[k]
+                k += 1
+                if m == "A" and refused:
+                    diffs.append({"scenario": tag, "stream": sid, "acts": line[:300], "model": mo[:300],
+                                  "why": "fiber %s was refused (duplicate listener) although no other fiber is registered in that direction" % fib})
+                    break
+                if m in ("?", "parse-error"):
+                    diffs.append({"scenario": tag, "stream": sid, "acts": line[:300], "model": mo[:300],
+                                  "why": "fiber %s starts an operation while the registry says it still waits on this stream" % fib})
+                    break
+            elif m == "X":
+                diffs.append({"scenario": tag, "stream": sid, "acts": line[:300], "model": mo[:300],
+                              "why": "an operation ended whose fiber the model has waiting but NOT registered in its slot (orphan)"})
+                break
+    return len(reg), diffs, hist
+
+
 def run_model(ctx, exe, lines, budget_s):
     """run the driver in batches within a time budget; a batch on which it CRASHES is bisected to the offending lines.
     Returns (outputs, None for lines not processed; indices of the lines the driver crashed on).  Never raises."""
@@ -275,7 +341,7 @@ def run_plumb(ctx, exe, drv, batches):
             return cases, plumb.run_cases(cases, exe)
         except Exception as e:   # noqa: BLE001
             return cases, {"rc": None, "cases": {}, "stderr_tail": "%s: %s" % (type(e).__name__, e), "stdout_tail": ""}
-    with cf.ThreadPoolExecutor(int(os.environ.get("VERIF_JOBS", "14"))) as ex:
+    with cf.ThreadPoolExecutor(_jobs()) as ex:
         done = list(ex.map(one, batches))
     fails, lines, meta = [], [], []
     stats = {"cases": 0, "os_spawn": 0, "os_execute": 0, "injected_spawn_failure": 0, "injected_pipe_failure": 0, "redirection_kinds": {},
@@ -487,8 +553,18 @@ def exec_checks(ctx, exe):
     n = 0
     d = tempfile.mkdtemp(prefix="c16x-", dir="/var/tmp")
     env = dict(os.environ, ASAN_OPTIONS="detect_leaks=0", C16_BACKSTOP_MS="30000")
+    def fetch(mode, inp, to):
+        dd = tempfile.mkdtemp(prefix="c16x-", dir="/var/tmp")
+        try:
+            return run_cmd([exe, os.path.join(VERIF, "harness/C16/exec.janet"), dd, mode], input=inp, timeout=to, env=env, cwd=dd)
+        finally:
+            shutil.rmtree(dd, ignore_errors=True)
+    # the three case tables are independent processes: run them side by side (each in its own scratch directory)
+    with cf.ThreadPoolExecutor(3) as ex:
+        futs = {m: ex.submit(fetch, m, i, t) for m, i, t in (("codes", None, 240), ("inject", None, 400), ("stdredir", b"INPUTG\n", 120))}
+        pre = {m: f.result() for m, f in futs.items()}
     try:
-        rc, out, err = run_cmd([exe, os.path.join(VERIF, "harness/C16/exec.janet"), d, "codes"], timeout=120, env=env, cwd=d)
+        rc, out, err = pre["codes"]
         got = {}
         for line in out.decode(errors="replace").splitlines():
             t = line.split(" ", 2)
@@ -525,7 +601,7 @@ def exec_checks(ctx, exe):
         if rc != 0 or b"DONE" not in out:
             fails.append(("exit-status:script", "exec.janet did not finish: rc=%s %s" % (rc, err.decode(errors="replace")[-300:])))
         # every terminated-child status word through the real reaping path (interposed waitpid substitutes the word)
-        rc, out, err = run_cmd([exe, os.path.join(VERIF, "harness/C16/exec.janet"), d, "inject"], timeout=300, env=env, cwd=d)
+        rc, out, err = pre["inject"]
         got = {}
         for line in out.decode(errors="replace").splitlines():
             t = line.split(" ", 2)
@@ -553,7 +629,7 @@ def exec_checks(ctx, exe):
         if rc != 0 or b"DONE" not in out:
             fails.append(("exit-status:script", "exec.janet inject did not finish: rc=%s %s" % (rc, err.decode(errors="replace")[-300:])))
         # redirections whose source is a standard descriptor of the parent
-        rc, out, err = run_cmd([exe, os.path.join(VERIF, "harness/C16/exec.janet"), d, "stdredir"], input=b"INPUTG\n", timeout=60, env=env, cwd=d)
+        rc, out, err = pre["stdredir"]
         so, se = out.decode(errors="replace"), err.decode(errors="replace")
         seg = {m.group(1): (m.group(2), m.group(3)) for m in re.finditer(r"stdredir-begin (\w)\n(.*?)stdredir-end \1 ([^\n]*)\n", so, re.S)}
         want = {"A": ("outA\nerrA\nrcA=0\n", "0", [], "{:err stdout}"),
@@ -612,16 +688,61 @@ def run_batch(ctx, exe, jobs):
         fails, ops = scen.oracle(sc, res)
         # keep only what the report needs (payloads / sinks / full traces of thousands of scenarios do not fit in memory)
         corr = prepare_corr("%s/%s" % (fam, k), res["trace"], ops)
+        try:
+            reg = registry_lines("%s/%s" % (fam, k), res["trace"], ops)
+        except Exception:   # noqa: BLE001  (an uninterpretable trace is reported by the oracle / the per-operation correspondence)
+            reg = []
         light = {"trace": res["trace"][-3000:], "stdout": res["stdout"][-3000:], "stderr": res["stderr"][-1500:],
-                 "faults": scen.fault_counts(res["trace"]), "corr": corr}
+                 "faults": scen.fault_counts(res["trace"]), "corr": corr, "reg": reg}
         return fam, k, sc, light, fails, len(ops)
-    with cf.ThreadPoolExecutor(int(os.environ.get("VERIF_JOBS", "14"))) as ex:
+    with cf.ThreadPoolExecutor(_jobs()) as ex:
         return list(ex.map(one, jobs))
+
+
+def _jobs():
+    """worker processes for the scenario sweeps: bounded by the cores this process may use (time backstops inside the harness
+    assume that a runnable scenario gets CPU within seconds)"""
+    if os.environ.get("VERIF_JOBS"):
+        return max(1, int(os.environ["VERIF_JOBS"]))
+    try:
+        n = len(os.sched_getaffinity(0))
+    except (AttributeError, OSError):
+        n = os.cpu_count() or 4
+    return max(2, min(14, n))
+
+
+def _fresh_environment():
+    """the verdict must not depend on how the check was started: default dispositions for the signals the exit-status cases use
+    (ignored ones are inherited by every child), no blocked signals, no scratch directories left by killed earlier runs"""
+    import signal
+    import time
+    for name in ("SIGABRT", "SIGPIPE", "SIGHUP", "SIGINT", "SIGQUIT", "SIGTERM", "SIGUSR1", "SIGUSR2", "SIGALRM", "SIGCHLD"):
+        sig = getattr(signal, name, None)
+        try:
+            # python itself ignores SIGPIPE and restores it in children (restore_signals); everything else: default
+            if sig is not None and name != "SIGPIPE" and signal.getsignal(sig) == signal.SIG_IGN:
+                signal.signal(sig, signal.SIG_DFL)
+        except (OSError, ValueError):
+            pass
+    try:
+        signal.pthread_sigmask(signal.SIG_SETMASK, set())
+    except (AttributeError, OSError, ValueError):
+        pass
+    try:
+        now = time.time()
+        for fn in os.listdir("/var/tmp"):
+            if re.match(r"c16[a-z]?-", fn):
+                q = os.path.join("/var/tmp", fn)
+                if os.path.isdir(q) and os.stat(q).st_uid == os.getuid() and now - os.path.getmtime(q) > 7200:
+                    shutil.rmtree(q, ignore_errors=True)
+    except OSError:
+        pass
 
 
 def run(ctx, only=None):
     quick = ctx.tier == "quick"
     broken = []
+    _fresh_environment()
     # (A)
     try:
         ctx.build.boot()
@@ -700,6 +821,7 @@ def run(ctx, only=None):
     nops = 0
     reported = set()
     traces = []
+    regs = []
     for fam, k, sc, res, fails, ops in results:
         fc = res["faults"]
         for kk in faults:
@@ -710,6 +832,7 @@ def run(ctx, only=None):
         sizes += sc["payload_sizes"]
         nops += ops
         traces += res["corr"]
+        regs += res.get("reg", [])
         for sig, desc in fails:
             if sig in reported:
                 continue
@@ -718,6 +841,7 @@ def run(ctx, only=None):
             ctx.violation(sig, {"kind": "scenario", "scenario": sc, "family": sc["family"], "failure": desc,
                                 "stdout_tail": res["stdout"], "stderr_tail": res["stderr"], "trace_tail": res["trace"]},
                           what="%s: %s" % (sc["family"], desc[:500]))
+    ctx.say("scenarios done (%d); exit-status / redirection cases" % len(results))
     try:
         nexec, efails = exec_checks(ctx, exe)
     except Exception as e:   # noqa: BLE001
@@ -733,6 +857,7 @@ def run(ctx, only=None):
             more = " (+%d more cases of this kind: %s)" % (len(items) - 1, ", ".join(x[0].rsplit(" ", 1)[-1] for x in items[1:9])) if len(items) > 1 else ""
             ctx.violation(sig, {"kind": "exec", "failure": desc, "all_failing_cases_of_this_kind": [x[0] for x in items]}, what=desc + more)
     # socket callbacks of net.c: in-process drive vs model (D) + direct expectations, real-socket connection scenarios (E)
+    ctx.say("socket callbacks (netdrive + connection scenarios)")
     try:
         nnet, nfails, ndiffs, nstats = net_checks(ctx, exe, drv, netseq_lines, bool(broken)) if not only or only == "net" else (0, [], [], {})
     except Exception as e:   # noqa: BLE001
@@ -751,6 +876,7 @@ def run(ctx, only=None):
         if not ctx.nviol:
             ctx.broken.append(broken[-1])
     # descriptor plumbing of os/spawn / os/execute: direct oracle (E) + model correspondence on syscalls and descriptor tables (D)
+    ctx.say("descriptor plumbing, process life cycle, status words")
     npl = PLUMB_CASES[ctx.tier] * (3 if broken and quick else 1)
     gen = plumb.generate(ctx.rng.fork("plumb"), npl)
     plumb_batches += [gen[i:i + 40] for i in range(0, len(gen), 40)]
@@ -807,6 +933,7 @@ def run(ctx, only=None):
     if predicted:
         broken.append("regenerated proc_get_status misreports %d terminated-child status words, first: %r" % (len(predicted), predicted[0]))
     # (D)
+    ctx.say("per-operation correspondence with the model (%d operation logs)" % len(traces))
     try:
         ncorr, diffs, smis, mkinds = correspond(ctx, drv, traces)
     except Exception as e:   # noqa: BLE001
@@ -817,6 +944,15 @@ def run(ctx, only=None):
         broken.append("correspondence model/impl on %d of %d operations, first: %r" % (len(diffs), ncorr, diffs[0]))
     if (diffs or smis) and not ctx.nviol:
         ctx.broken.append(broken[-1])
+    try:
+        nreg, rdiffs, rhist = registry_correspond(ctx, drv, regs)
+    except Exception as e:   # noqa: BLE001
+        nreg, rdiffs, rhist = 0, [{"why": "registry correspondence failed: %s: %s" % (type(e).__name__, e)}], {}
+    if rdiffs:
+        broken.append("correspondence listener-slot registry (janet_async_start_fiber / janet_async_end / janet_stream_close) vs World model on %d of %d stream ends, first: %r"
+                      % (len(rdiffs), nreg, rdiffs[0]))
+        if not ctx.nviol:
+            ctx.broken.append(broken[-1])
     if broken and not ctx.nviol and not ctx.nknown:
         ctx.violation("broken:" + broken[0][:80], {"kind": "broken-obligation", "broken": broken, "first_diffs": diffs[:5], "facts": facts},
                       found=False, what="no longer shown to hold: " + "; ".join(broken)[:700])
@@ -838,6 +974,7 @@ def run(ctx, only=None):
         "intercepted_syscalls": faults["calls"], "faults_injected": {k: faults[k] for k in ("eagain", "short", "eintr", "err")},
         "kernel_own": {"eagain": faults["real_eagain"], "partial_transfers": faults["real_partial"]}, "epoll_rearms": faults["rearm"],
         "correspondence_ops": ncorr, "correspondence_diffs": len(diffs), "model_outcomes": mkinds,
+        "registry_stream_ends_compared": nreg, "registry_tokens": rhist, "registry_diffs": len(rdiffs),
         "plumbing": pstats, "plumbing_model_diffs": len(pdiffs),
         "life_cycle_sequences": nlife, "life_cycle_ops": lhist, "life_cycle_model_diffs": len(ldiffs),
         "status_words_compared": nstat, "status_word_diffs": len(sdiffs),
